@@ -27,7 +27,14 @@ Record obs_case := mkCase {
   oc_impl : result (list (N * Z));
   oc_impl_policy : result (policy_kind * Z);
   (* for a fixed policy on a successfully built group: what DialerGroup.Select returned (member id) *)
-  oc_impl_fixed : option (result N)
+  oc_impl_fixed : option (result N);
+  (* pool built from tagged links (NewDialerSetFromLinks): the map entries in the iteration order the
+     implementation took, the link oracle (name / rejected), and the pool the implementation built as
+     (tag, name) in s.dialers order.  oc_from_links = false: the pool was given directly (oc_pool). *)
+  oc_from_links : bool;
+  oc_tagged : tagged;
+  oc_links : list (string * option string);
+  oc_impl_pool : list (string * string)
 }.
 
 Definition c_re_ok (c : obs_case) (p : string) : bool :=
@@ -61,6 +68,26 @@ Fixpoint list_eqb {A} (eqb : A -> A -> bool) (l1 l2 : list A) : bool :=
   | a :: r1, b :: r2 => eqb a b && list_eqb eqb r1 r2
   | _, _ => false
   end.
+
+Definition c_link (c : obs_case) (l : string) : option string :=
+  match assoc l (oc_links c) with Some o => o | None => None end.
+
+Definition node_eqb (a b : node) : bool :=
+  (N.eqb (n_id a) (n_id b) && (n_name a =? n_name b) && (n_tag a =? n_tag b))%bool.
+Definition pair_str_eqb (a b : string * string) : bool := ((fst a =? fst b) && (snd a =? snd b))%bool.
+
+(* codes 13 impl pool not one-per-occurrence (spec)  14 impl pool <> model pool  15 model pool not
+   faithful  16 the pool handed to the filter checks is not the model's pool  7 link oracle incomplete *)
+Definition check_pool (c : obs_case) : list N :=
+  if negb (oc_from_links c) then [] else
+  let mp := new_dialer_set (c_link c) (oc_tagged c) in
+  let ip := map (fun tn => mkNode 0 (snd tn) (fst tn)) (oc_impl_pool c) in
+  (if pool_faithful_b (c_link c) (oc_tagged c) ip then [] else [13%N])
+  ++ (if list_eqb pair_str_eqb (map (fun n => (n_tag n, n_name n)) mp) (oc_impl_pool c) then [] else [14%N])
+  ++ (if pool_faithful_b (c_link c) (oc_tagged c) mp then [] else [15%N])
+  ++ (if list_eqb node_eqb mp (oc_pool c) then [] else [16%N])
+  ++ (if forallb (fun e => forallb (fun l => match assoc l (oc_links c) with Some _ => true | None => false end) (snd e))
+                 (oc_tagged c) then [] else [7%N]).
 
 Definition proj (l : list (node * Z)) : list (N * Z) := map (fun x => (n_id (fst x), snd x)) l.
 
@@ -152,7 +179,8 @@ Definition check_case (c : obs_case) : list N :=
    ++ (if spec_policy_allows_b c mp then [] else [6%N])
    ++ (if oracle_complete c then [] else [7%N])
    ++ (if optres_eqb (oc_impl_fixed c) (model_fixed c) then [] else [11%N])
-   ++ (if spec_fixed_allows_b c then [] else [12%N])).
+   ++ (if spec_fixed_allows_b c then [] else [12%N])
+   ++ check_pool c).
 
 Definition bucket (n : nat) : N := N.of_nat (Nat.min n 3).
 
